@@ -27,7 +27,7 @@ class Scenario(object):
 
     def __init__(self, wd, benchmarks, invocations, iterations, crits, data_file='t.data',
                  second_exp=None, profile=False, third_exp=None, unicode_text=False,
-                 text_fields=None):
+                 text_fields=None, bench_args=None):
         self.wd = wd
         self.benchmarks = list(benchmarks)
         self.invocations = invocations
@@ -39,6 +39,7 @@ class Scenario(object):
         self.profile = profile
         self.serial = SERIAL_BASE
         self.session = 0
+        self.bench_args = bench_args or {}     # benchmark name -> extra_args (suite S)
         self.text_fields = text_fields or {}   # e.g. {'variable_values': ['a\u2028b'], 'input_sizes': ['1\x0c2']}
         self.unicode_text = unicode_text   # non-ASCII text in fields that are recorded in the JSON metadata
         self.encoding = 'utf-8'            # 'latin-1': read()/write() work on bytes (one char = one byte)
@@ -49,7 +50,8 @@ class Scenario(object):
 
     def config(self):
         suites = {'S': {'gauge_adapter': 'RebenchLog', 'command': 'h %(benchmark)s',
-                        'benchmarks': list(self.benchmarks)}}
+                        'benchmarks': [({b: {'extra_args': self.bench_args[b]}} if b in self.bench_args else b)
+                                       for b in self.benchmarks]}}
         executors = {'E': {'path': '.', 'executable': 'exe'}}
         exps = {'T': {'suites': ['S'], 'executions': ['E']}}
         if self.unicode_text:
@@ -61,7 +63,7 @@ class Scenario(object):
             executors['E']['profiler'] = {'perf': {}}
             exps['T']['action'] = 'profile'
         if self.second_exp:
-            suites['S2'] = {'gauge_adapter': 'RebenchLog', 'command': 'h2 %(benchmark)s',
+            suites['S2'] = {'gauge_adapter': self.second_exp.get('adapter', 'RebenchLog'), 'command': 'h2 %(benchmark)s',
                             'benchmarks': list(self.second_exp['benchmarks'])}
             executors['E2'] = {'path': '.', 'executable': 'exe2'}
             exps['U'] = {'suites': ['S2'], 'executions': ['E2']}
@@ -94,12 +96,22 @@ class Scenario(object):
         toks = args.split()
         if self.profile:
             return self._profile_script(rec, toks)
-        bench = toks[-1]
-        suite_cmd = toks[-2]   # 'h' (suite S) or 'h2' (suite S2)
+        hi = next(i for i, t in enumerate(toks) if t in ('h', 'h2', 'h3'))
+        bench = toks[hi + 1]   # (extra arguments of the benchmark follow it)
+        suite_cmd = toks[hi]   # 'h' (suite S) or 'h2' (suite S2)
         if toks[0].rsplit('/', 1)[-1] in self.fail_exes:
             return drive.Outcome(1, 'benchmark failed\n')
         dps = []
         out = ''
+        if suite_cmd == 'h2' and self.second_exp and self.second_exp.get('adapter') == 'ValidationLog':
+            # ValidationLog: a boolean `Success` measurement and the total per data point
+            for _it in range(self.iterations):
+                s = self.next_serial()
+                dps.append([('total', s)])
+                out += '%s: iterations=1 runtime: %dms success: true\n' % (bench, s)
+            self.starts.append({'session': self.session, 'bench': bench, 'exe': toks[0].rsplit('/', 1)[-1],
+                                'dps': dps, 'n': len(self.starts)})
+            return drive.Outcome(0, out)
         for _it in range(self.iterations):
             dp = []
             for c in range(self.crits):
@@ -122,7 +134,8 @@ class Scenario(object):
             self.starts.append({'session': self.session, 'bench': self._last[0], 'exe': self._last[1],
                                 'dps': [[('profile', s)]], 'n': len(self.starts)})
             return drive.Outcome(0, '# perf\n    50.00%%  exe  libx.so  [.] sym%d\n' % s)
-        self._last = (toks[-1], toks[-3].rsplit('/', 1)[-1])
+        hi = next(i for i, t in enumerate(toks) if t in ('h', 'h2', 'h3'))
+        self._last = (toks[hi + 1], toks[hi - 1].rsplit('/', 1)[-1])
         if self._last[1] in self.fail_exes:
             return drive.Outcome(1, 'benchmark failed\n')
         return drive.Outcome(0, '')
@@ -240,28 +253,31 @@ def parse_file(text):
             d['kind'] = 'header'
         else:
             cols = line.split('\t')
-            if (len(cols) == 15 and cols[0].isdigit() and cols[1].isdigit() and cols[14].isdigit()
-                    and VALUE_RE.match(cols[2]) and cols[0].isascii() and cols[1].isascii() and cols[14].isascii()):
+            if (len(cols) >= 14 and cols[0].isdigit() and cols[1].isdigit() and cols[-1].isdigit()
+                    and (VALUE_RE.match(cols[2]) or cols[2] in ('True', 'False'))
+                    and cols[0].isascii() and cols[1].isascii() and cols[-1].isascii()):
+                # 15 columns; 14 in the layout of older versions (no machine column); more when a text
+                # column (extra arguments) contains a tab: the loader reads the first five and the last
                 d['kind'] = 'meas'
                 d['inv'] = int(cols[0])
                 d['it'] = int(cols[1])
-                d['value'] = float(cols[2])
+                d['value'] = float(cols[2]) if VALUE_RE.match(cols[2]) else (cols[2] == 'True')
                 d['serial'] = int(cols[2].split('.')[0]) if cols[2].endswith('.000000') else None
                 d['crit'] = cols[4]
                 d['bench'] = _name(cols[5])
                 d['exe'] = _name(cols[6])
-                d['run_col'] = int(cols[14])
-            elif (len(cols) == 13 and cols[0].isdigit() and cols[1].isdigit() and cols[11].isdigit()
-                  and cols[12].startswith('[') and _is_json(cols[12])):
+                d['run_col'] = int(cols[-1])
+            elif (len(cols) >= 13 and cols[0].isdigit() and cols[1].isdigit() and cols[-2].isdigit()
+                  and cols[-1].startswith('[') and _is_json(cols[-1])):
                 # profile data line: invocation, numIterations, run columns, json
                 d['kind'] = 'prof'
                 d['crit'] = 'profile'
-                d['json'] = cols[12]
+                d['json'] = cols[-1]
                 d['inv'] = int(cols[0])
                 d['bench'] = _name(cols[2])
                 d['exe'] = _name(cols[3])
-                d['run_col'] = int(cols[11])
-                m = re.search(r'sym(\d+)', cols[12])
+                d['run_col'] = int(cols[-2])
+                m = re.search(r'sym(\d+)', cols[-1])
                 d['serial'] = int(m.group(1)) if m else None
             else:
                 d['kind'] = 'other'
